@@ -8,6 +8,7 @@ mod c09;
 mod search;
 mod searchprops;
 mod c20;
+mod c16;
 #[allow(dead_code)]
 mod jsonproto;
 mod c15;
@@ -74,6 +75,7 @@ fn main() {
         "C11" => c11::run(&mut ctx),
         "C18" => c18::run(&mut ctx),
         "C20" => c20::run(&mut ctx),
+        "C16" => c16::run(&mut ctx),
         _ => {
             eprintln!("unknown property {}", prop);
             std::process::exit(2);
